@@ -61,6 +61,10 @@ func complete(n *provenance.ProofNode) bool {
 }
 
 func matchPattern(pattern ast.Atom, fact ast.Atom) error {
+	// constructor expressions such as [] or fn:pair(/a, 1) are evaluated first
+	if ev, err := functional.EvalAtom(pattern, nil); err == nil {
+		pattern = ev
+	}
 	if pattern.Predicate != fact.Predicate || len(pattern.Args) != len(fact.Args) {
 		return fmt.Errorf("premise %v does not have the shape of body literal %v", fact, pattern)
 	}
